@@ -90,6 +90,12 @@ func verdictOperand(v ssa.Value, recv string, tr func(ssa.Value) ssa.Value) stri
 			}
 		}
 	}
+	// an option copied once into a field of the result's own (`tolerance.maxFailures ← runOptions.MaxFailures`)
+	if fld, owner := an.TerminalField(v); fld != nil && !an.IsNamed(owner, optionsPkg, "RunOptions") && curCtx != nil {
+		if sf, so := an.TerminalField(singleSource(curCtx, an.Terminal(v))); sf != nil && an.IsNamed(so, optionsPkg, "RunOptions") {
+			d = "." + sf.Name()
+		}
+	}
 	switch {
 	case strings.HasSuffix(d, ".Error("+recv+")"):
 		return "ERR"
@@ -419,7 +425,15 @@ func c08(c *core.Ctx, r *core.Report) {
 		}
 		r.Check(strings.HasSuffix(recvD, ".snapshot"), key+"#receiver", an.Pos(c, shareCall), "evaluated on the result's snapshot", "share evaluated on "+recvD)
 		rateD := an.D().Of(shareCall.Call.Args[len(shareCall.Call.Args)-1])
-		r.Check(strings.HasSuffix(rateD, ".MaxFailuresRate"), key+"#rate-arg", an.Pos(c, shareCall), "rate argument is "+rateD, "the rate handed to the share predicate is "+rateD+", not the max-failures-rate option")
+		rateOK := strings.HasSuffix(rateD, ".MaxFailuresRate")
+		if !rateOK {
+			// the option copied once into a field of the result's own
+			rv := shareCall.Call.Args[len(shareCall.Call.Args)-1]
+			if sf, so := an.TerminalField(singleSource(c, an.Terminal(rv))); sf != nil && sf.Name() == "MaxFailuresRate" && an.IsNamed(so, optionsPkg, "RunOptions") {
+				rateOK = true
+			}
+		}
+		r.Check(rateOK, key+"#rate-arg", an.Pos(c, shareCall), "rate argument is "+rateD, "the rate handed to the share predicate is "+rateD+", not the max-failures-rate option")
 		rets := an.Returns(shareFn)
 		if len(rets) != 1 {
 			r.Undecided(key+"#shape", c.Pos(shareFn.Pos()), "share predicate has %d returns", len(rets))
